@@ -713,7 +713,8 @@ class C05(PropBase):
         "get_memory_at_address::<u8>(sp).is_none()) when it re-emits the guards of get_caller_frame / walk_stack as Gen/UnwindTail.v",
         "the translator's token-level templates of instruction_seems_valid_by_symbols (fill_symbol abstracted as: Err / Ok without set_function / "
         "Ok after set_function(name) with name.is_empty() known) and of arm64 ptr_auth_strip (checked_next_power_of_two = 2^log2_up, `&` = Z.land)",
-        "C11's model of SymbolFile::fill_symbol (C11.Model.symbolize) stands for fill_symbol in c05_function_covers; C11's own check ties it to the code",
+        "C11's model of SymbolFile::fill_symbol (C11.Model.symbolize) stands for fill_symbol in c05_function_covers and c05_scan_function_covers "
+        "(names abstract there: which one is the empty string is a parameter); C11's own check ties it to the code",
         "oracles of the model (Section variables): module lookup (contract = C08 c08_lookup_sound), symbol-file CFI/WIN walk "
         "(contract: register values fit the register width), instruction_seems_valid_by_symbols — universally quantified in the theorems",
         "the driver instantiates them with C08's range map and a small evaluator of one STACK CFI rule family (coq/C05/Driver.v)",
@@ -743,7 +744,10 @@ class C05(PropBase):
                 "function; any lookup / provider), c05_scan_in_module (end to end through C08 for the walker the driver runs), "
                 "c05_ptr_auth_strip_source (generated strip never traps, = the model's ptr mod 2^k, never grows a pointer), c05_trusts_pinned "
                 "(cfi_scan / prewalked / none are constructed nowhere), c05_stack_memory_edges (empty stack memory or one whose end exceeds "
-                "2^64 - 1: exactly the context frame). "
+                "2^64 - 1: exactly the context frame), c05_memory_range_source (minidump.rs memory_range re-emitted: never traps, Some exactly when "
+                "the model walks the memory), c05_scan_function_covers (scan acceptance with the symbol lookup inside, over C08's lookup and C11's "
+                "model of fill_symbol: the predecessor of a scanned return address lies in a module without symbol file or in a FUNC / at or "
+                "above a PUBLIC record with a non-empty name). "
                 "The model is tied to the code by running minidump_unwind::walk_stack and the extracted model on generated adversarial and "
                 "well-formed stacks in debug and release builds; an independent oracle evaluates the invariants on the implementation's frames, "
                 "incl. module covers and function covers (function base/name observed per frame, judged against the FUNC records of the case's own "
